@@ -10,6 +10,7 @@ import (
 	"fmt"
 	"net/http"
 	"sync"
+	"time"
 
 	"github.com/notaryproject/notation-core-go/revocation"
 	"github.com/notaryproject/notation-core-go/revocation/result"
@@ -67,6 +68,11 @@ func tsaGetWorld() *tsaWorld {
 		badInter("intermediate-without-certsign", func(t *pki.Tmpl) { t.KeyUsage = x509.KeyUsageCRLSign })
 		badInter("intermediate-without-key-usage", func(t *pki.Tmpl) { t.KUAbsent = true })
 		badInter("intermediate-not-a-ca", func(t *pki.Tmpl) { t.CA = false; t.BCLeafFalse = true })
+		// TSA certificates that are not valid *now* (the moment of signing): the authority's own clock (genTime) says otherwise
+		day := 24 * time.Hour
+		mk("leaf-expired", func(t *pki.Tmpl) { t.NotBefore, t.NotAfter = pki.Now.Add(-20*time.Hour), pki.Now.Add(-2*time.Hour) }) // inside the CAs' validity (from -24 h)
+		mk("leaf-not-yet-valid", func(t *pki.Tmpl) { t.NotBefore, t.NotAfter = pki.Now.Add(30*day), pki.Now.Add(400*day) })
+		badInter("intermediate-expired", func(t *pki.Tmpl) { t.NotBefore, t.NotAfter = pki.Now.Add(-20*time.Hour), pki.Now.Add(-2*time.Hour) })
 		w.pool = x509.NewCertPool()
 		w.pool.AddCert(w.root.X)
 		// a *trusted* root that is a CA but lacks the key usage extension (path building tolerates it; only the library's own validation objects)
@@ -147,6 +153,20 @@ func tsaBehaviours() []tsaBehaviour {
 		v := v
 		token("tsa-"+v, false, 0, func(w *tsaWorld) pki.TSASpec { ch := w.variants[v]; return pki.TSASpec{Signer: ch[0], Embed: ch} })
 	}
+	// a chain outside its validity at the moment of signing is not a valid chain, whatever time the authority writes into the token
+	for _, v := range []struct {
+		variant string
+		gen     time.Duration
+		n       string
+	}{{"leaf-expired", 0, "genTime-now"}, {"leaf-expired", -10 * time.Hour, "genTime-back-dated-into-its-validity"}, {"leaf-not-yet-valid", 100 * 24 * time.Hour, "genTime-post-dated-into-its-validity"},
+		{"intermediate-expired", -10 * time.Hour, "genTime-back-dated-into-its-validity"}} {
+		v := v
+		token("tsa-"+v.variant+"/"+v.n, false, 0, func(w *tsaWorld) pki.TSASpec {
+			ch := w.variants[v.variant]
+			return pki.TSASpec{Signer: ch[0], Embed: ch, GenTime: pki.Now.Add(v.gen)}
+		})
+	}
+	// a valid chain with an authority clock that is off does not invalidate the token (the library does not compare genTime with its own clock)
 	out = append(out, tsaBehaviour{name: "garbage-body", reply: func(w *tsaWorld, req *tspclient.Request, tokenOut *[]byte) netsim.Answer {
 		return tsaReplyOK([]byte("not a timestamp response"))
 	}})
